@@ -41,6 +41,9 @@ def systematic():
                     metas = [EM("sall", "kebab-case")] if n % 2 else []
                     if n % 3 == 0:
                         metas.append(EM("aci"))
+                    if n % 5 == 2:
+                        # an enum-level prefix is never printed in front of the CAPTURED value of a default variant
+                        metas.append(EM("prefix", ["colour/", "p"][n % 2]))
                     if n % 4 == 1:
                         # a custom parse error next to a default variant: the default variant still catches everything
                         metas += [EM("pety", "PErr"), EM("pefn", "perr_a" if n % 8 == 1 else "perr::b")]
